@@ -394,12 +394,98 @@ DupKids(hh, newitem, c, depth, f, n0, last, fuel) ==
                                          ELSE [r.h EXCEPT ![newitem].ch = r.id]
                  IN DupKids(h1, newitem, hh[c].nx, depth, f, r.n, r.id, fuel - 1)
 
+DupOom(hh, item, recurse, f) == item # NULL /\ DupRec(hh, item, 0, recurse, f, 0).oom   \* the model (not the allocator) ran out of slots
 Duplicate(hh, rts, item, recurse, f) ==
   IF item = NULL THEN Same(hh, rts, NULLRES)
   ELSE LET r == DupRec(hh, item, 0, recurse, f, 0) IN
        IF r.id = NULL THEN Same(hh, rts, NULLRES)      \* everything allocated so far is released again
        ELSE <<Out(r.h, rts \cup {r.id}, Ptr(r.id))>>
 
-\* number of requests a successful duplicate makes, and whether the model has room for it
-DupReqs(hh, item, recurse) == DupRec(hh, item, 0, recurse, 0, 0)
+\* number of allocation requests a complete duplicate makes (independent of the room the model has)
+RECURSIVE DupCount(_, _, _, _, _)
+DupCount(hh, item, depth, recurse, fuel) ==
+  LET src == hh[item]
+      own == 1 + (IF src.vs # NoStr THEN 1 ELSE 0) + (IF src.key # NoStr /\ ~src.ck THEN 1 ELSE 0)
+      RECURSIVE KidsCount(_, _)
+      KidsCount(c, fl) == IF c = NULL \/ fl = 0 \/ depth >= CircularLimit THEN 0
+                          ELSE DupCount(hh, c, depth + 1, TRUE, fuel - 1) + KidsCount(hh[c].nx, fl - 1)
+  IN IF ~recurse \/ fuel = 0 THEN own ELSE own + KidsCount(src.ch, N)
+
+(***************************************************************************)
+(* cJSON_Utils.c sort_list / sort_object (cJSON_Utils.c:484-602): merge     *)
+(* sort on the sibling chain, transcribed at pointer level.                 *)
+(***************************************************************************)
+RECURSIVE LexLess(_, _)
+LexLess(a, b) ==                       \* strcmp(a, b) < 0 on byte strings
+  IF b = <<>> THEN FALSE
+  ELSE IF a = <<>> THEN TRUE
+  ELSE IF Head(a) # Head(b) THEN Head(a) < Head(b)
+  ELSE LexLess(Tail(a), Tail(b))
+
+KeyLess(a, b, cs) == IF cs THEN LexLess(a, b) ELSE LexLess(Fold(a), Fold(b))   \* compare_strings(a, b, cs) < 0
+
+RECURSIVE SortedRunEnd(_, _, _, _)
+\* the "test for list sorted" loop: last item of the non-decreasing prefix
+SortedRunEnd(hh, c, cs, fuel) ==
+  IF fuel = 0 \/ hh[c].nx = NULL \/ KeyLess(hh[hh[c].nx].key, hh[c].key, cs) THEN c   \* stops at the first descent
+  ELSE SortedRunEnd(hh, hh[c].nx, cs, fuel - 1)
+
+RECURSIVE Middle(_, _, _, _)
+\* "walk two pointers to find the middle": second advances one step, cur two steps per round
+Middle(hh, second, cur, fuel) ==
+  IF cur = NULL \/ fuel = 0 THEN second
+  ELSE LET c1 == hh[cur].nx
+           c2 == IF c1 # NULL THEN hh[c1].nx ELSE NULL
+       IN Middle(hh, hh[second].nx, c2, fuel - 1)
+
+RECURSIVE MergeLists(_, _, _, _, _, _, _)
+MergeLists(hh, first, second, result, tail, cs, fuel) ==
+  IF first # NULL /\ second # NULL /\ fuel > 0
+  THEN LET smaller == IF KeyLess(hh[first].key, hh[second].key, cs) THEN first ELSE second
+           h1 == IF result = NULL THEN hh ELSE [hh EXCEPT ![tail].nx = smaller, ![smaller].pv = tail]
+           res1 == IF result = NULL THEN smaller ELSE result
+       IN IF smaller = first THEN MergeLists(h1, hh[first].nx, second, res1, smaller, cs, fuel - 1)
+                             ELSE MergeLists(h1, first, hh[second].nx, res1, smaller, cs, fuel - 1)
+  ELSE IF first # NULL
+       THEN IF result = NULL THEN [h |-> hh, head |-> first]
+            ELSE [h |-> [hh EXCEPT ![tail].nx = first, ![first].pv = tail], head |-> result]
+  ELSE IF second # NULL
+       THEN IF result = NULL THEN [h |-> hh, head |-> second]
+            ELSE [h |-> [hh EXCEPT ![tail].nx = second, ![second].pv = tail], head |-> result]
+  ELSE [h |-> hh, head |-> result]
+
+RECURSIVE SortList(_, _, _, _)
+SortList(hh, list, cs, fuel) ==
+  IF list = NULL \/ hh[list].nx = NULL \/ fuel = 0 THEN [h |-> hh, head |-> list]
+  ELSE IF hh[SortedRunEnd(hh, list, cs, N)].nx = NULL THEN [h |-> hh, head |-> list]   \* sorted lists are left unmodified
+  ELSE LET second == Middle(hh, list, list, N)
+           h1 == IF second # NULL /\ hh[second].pv # NULL
+                 THEN [[hh EXCEPT ![hh[second].pv].nx = NULL] EXCEPT ![second].pv = NULL] ELSE hh
+           r1 == SortList(h1, list, cs, fuel - 1)
+           r2 == SortList(r1.h, second, cs, fuel - 1)
+       IN MergeLists(r2.h, r1.head, r2.head, NULL, NULL, cs, N + 1)
+
+\* sort_object: sort, then let the first child point to the last one again
+SortObject(hh, rts, p, cs) ==
+  IF p = NULL THEN Same(hh, rts, [t |-> "void"])
+  ELSE LET r  == SortList(hh, hh[p].ch, cs, N)
+           h1 == [r.h EXCEPT ![p].ch = r.head]
+           c  == Chain(h1, r.head, N)
+           h2 == IF r.head # NULL THEN [h1 EXCEPT ![r.head].pv = c[Len(c)]] ELSE h1
+       IN <<Out(h2, rts, [t |-> "void"])>>
+
+\* canonical well-formed chain for container p holding exactly seq
+Relink(hh, p, seq) ==
+  IF seq = <<>> THEN [hh EXCEPT ![p].ch = NULL]
+  ELSE [i \in Node |->
+          IF i = p THEN [hh[i] EXCEPT !.ch = seq[1]]
+          ELSE IF \E k \in DOMAIN seq : seq[k] = i
+               THEN LET k == CHOOSE k \in DOMAIN seq : seq[k] = i IN
+                    [hh[i] EXCEPT !.nx = IF k = Len(seq) THEN NULL ELSE seq[k + 1],
+                                  !.pv = IF k = 1 THEN seq[Len(seq)] ELSE seq[k - 1]]
+               ELSE hh[i]]
+
+Perms(s) == {t \in [DOMAIN s -> Range(s)] : \A a, b \in DOMAIN s : a # b => t[a] # t[b]}
+KeyLeq(a, b, cs) == ~KeyLess(b, a, cs)
+SortedBy(hh, seq, cs) == \A k \in 1..(Len(seq) - 1) : KeyLeq(hh[seq[k]].key, hh[seq[k + 1]].key, cs)
 =============================================================================
